@@ -14,7 +14,7 @@ def run(ctx):
     ctx.lean_proofs("Props.C42")
     ctx.rule("c42: sessions of 25-65 ops on a fresh indexer: AddBatch blocks of 1-14 results at heights around decimal-length "
              "boundaries (9/10/11, 99/100, 10^18, MaxInt64-1), signer/recipient from 2-9 addresses that are hex prefixes of each other "
-             "or differ in the last byte (also nil and empty), ~17% ante-level failures (auth codes 1-9) and boundary codes, rare duplicate "
+             "or differ in the last byte (also nil and empty), 55% non-zero result codes over codespaces {"", auth, sdk, pos, application, pocketcore, gov, AUTH, authx, sd, random} x codes {0-13, 100, 105, MaxUint32} (only auth with code < 10 is an ante rejection and not indexed; low sdk/module codes come from message handlers and must be indexed), rare duplicate "
              "tx bytes; queries by height/signer/recipient (+address AND height) in both directions and unsupported sort strings, "
              "skip/size incl. 0, negative, >maxPerPage, full page walks of sizes 1-6; Get/tx.hash for known, unknown, empty hashes; "
              "database dumps; 61 ELEN encodings vs lexnum; non-trivial = query with total > 1, every batch/index/dump; distinct = distinct trace line")
